@@ -903,56 +903,32 @@ fn check_closed(ctx: &Ctx, c: &ClosedCase) -> PResult {
 pub fn props() -> Vec<(Box<dyn PropDyn>, u32, u32)> {
     vec![
         (
-            Box::new(Prop {
-                name: "fft",
-                strat: fft_case,
-                check: check_fft,
-            }),
+            Box::new(Prop::new("fft", fft_case, check_fft)),
             2400,
             30000,
         ),
         (
-            Box::new(Prop {
-                name: "ifft",
-                strat: fft_case,
-                check: check_ifft,
-            }),
+            Box::new(Prop::new("ifft", fft_case, check_ifft)),
             1600,
             20000,
         ),
         (
-            Box::new(Prop {
-                name: "pools",
-                strat: pool_case,
-                check: check_pools,
-            }),
+            Box::new(Prop::new("pools", pool_case, check_pools)),
             48,
             400,
         ),
         (
-            Box::new(Prop {
-                name: "poly",
-                strat: poly_case,
-                check: check_poly,
-            }),
+            Box::new(Prop::new("poly", poly_case, check_poly)),
             3000,
             40000,
         ),
         (
-            Box::new(Prop {
-                name: "batch_inv",
-                strat: inv_case,
-                check: check_inv,
-            }),
+            Box::new(Prop::new("batch_inv", inv_case, check_inv)),
             2000,
             20000,
         ),
         (
-            Box::new(Prop {
-                name: "closed",
-                strat: closed_case,
-                check: check_closed,
-            }),
+            Box::new(Prop::new("closed", closed_case, check_closed)),
             1600,
             20000,
         ),
